@@ -1,1 +1,218 @@
-/- C06 property theorems (stub: not built yet) -/
+import ThriftVerif.Gen.DefaultsLemmas
+import ThriftVerif.Generated.C06
+/-
+  C06 — constants and default values in Go equal the values written in the IDL (DESIGN.md §5.6).
+
+  Model: `Gen.Defaults` (resolver.go's resolveConst case by case, emitting a `GoExpr`; `evalGo` = what the
+  compiled expression holds; `evalIDL` = the value the initializer denotes by the IDL's own rules;
+  `goUnquote` / `interp` = Go's interpreted string literals as a character-level scanner).
+  Property theorems only; proofs are in `Gen/DefaultsLemmas.lean`.
+-/
+namespace Props.C06
+open Gen Gen.Defaults
+
+/-! ### const_value -/
+
+/-- **const_value.**  Whenever thriftgo accepts an initializer (`resolveConst … = ok e`) and the IDL's rules
+give it a value, the Go expression it emits evaluates to that value -- for every type shape, nested
+list/set/map/struct literals, enum members by name or number, and references to other constants also across
+includes (the package-level environment `goEnvOf` is itself defined by `resolveConst` on the referenced
+constants).  Hypotheses: the program was accepted (`Accepted`), and the three shapes on which the statement
+is FALSE on the model and on the code are excluded by `good` (see `const_value_fails_*` below):
+string literals whose emitted text Go reads differently (`litOK`), identifiers inside a literal of a struct
+defined in another file, members that need `&` applied to something not addressable. -/
+theorem const_value (E : Env) (hacc : Accepted E) (hgood : EnvGood E) (fuel root g : Nat) (t : ATy) (v : CV)
+    (e : GoExpr) (val : GoVal)
+    (h : resolveConst E root g t v = .ok e) (hg : good E g t v = true)
+    (hI : evalIDL E (idlEnvOf E fuel) g g t v = some val) :
+    evalGo E (goEnvOf E fuel) e = some val :=
+  rc_sound (envAgree E hacc hgood fuel) root v g g t e val h (Or.inl rfl) hg hI
+
+/-- const_value for the generated package-level declarations themselves: the Go constant/variable generated
+for an IDL constant holds the value its initializer denotes. -/
+theorem const_value_named (E : Env) (hacc : Accepted E) (hgood : EnvGood E) (fuel f : Nat) (n : Name) (val : GoVal)
+    (hI : idlEnvOf E fuel f n = some val) : goEnvOf E fuel f n = some val :=
+  (envAgree E hacc hgood fuel).val f n val hI
+
+/-! The hypotheses are satisfiable, the conclusion is not vacuous: two files, a constant in the included
+file, an enum, a struct with an optional member; the root file's constant is a struct literal that refers
+to the other file's constant through a list. -/
+section witness
+
+private def nmC : Name := [67]        -- "C"
+private def nmK : Name := [75]        -- "K"
+private def nmE : Name := [69]        -- "E"
+private def nmA : Name := [65]        -- "A"
+private def nmS : Name := [83]        -- "S"
+private def nmb : Name := [98]        -- "b"
+
+/-- file 0 includes file 1; file 1: `const i32 K = 7`, `enum E {A = 4}`;
+    file 0: `struct S {1: optional i32 x, 2: list<i32> l, 3: string s, 4: E e}`,
+            `const S C = {"x": b.K, "l": [1, b.K], "s": "h\"i", "e": b.E.A}` -/
+def demoEnv : Env :=
+  { files := [
+      { ns := 1, includes := [(1, true)],
+        structs := [{ name := nmS, fields := [
+          { name := [120], req := .optional, ty := .base .i32, dflt := none },
+          { name := [108], req := .default, ty := .list (.base .i32), dflt := none },
+          { name := [115], req := .default, ty := .base .str, dflt := none },
+          { name := [101], req := .default, ty := .named .enum (some 0) nmE, dflt := none }] }],
+        consts := [{ name := nmC, ty := .named .strct none nmS, val := .map [
+          (.lit [120], .ident [98, 46, 75] (some { isEnum := false, index := some 0, name := nmK, sel := nmb })),
+          (.lit [108], .list [.int 1, .ident [98, 46, 75] (some { isEnum := false, index := some 0, name := nmK, sel := nmb })]),
+          (.lit [115], .lit [104, 34, 105]),
+          (.lit [101], .ident [98, 46, 69, 46, 65] (some { isEnum := true, index := some 0, name := nmA, sel := nmE }))] }] },
+      { ns := 2, includes := [],
+        enums := [{ name := nmE, values := [(nmA, 4)] }],
+        consts := [{ name := nmK, ty := .base .i32, val := .int 7 }] }] }
+
+example : idlEnvOf demoEnv 3 0 nmC = some (.strct [.int 7, .list [.int 1, .int 7], .bytes [104, 34, 105], .int 4]) := rfl
+example : goEnvOf demoEnv 3 0 nmC = some (.strct [.int 7, .list [.int 1, .int 7], .bytes [104, 34, 105], .int 4]) := rfl
+
+end witness
+
+/-! The three excluded shapes are genuine failures (of the model, and -- replayed by the harness -- of the code). -/
+
+/-- `'a\"b'`: the IDL literal means `a"b`; the emitted Go text `"a\\"b"` does not compile. -/
+theorem const_value_fails_escaped_quote :
+    resolveConst { files := [{ ns := 1, includes := [] }] } 0 0 (.base .str) (.lit [97, 92, 34, 98]) = .ok (.strLit [34, 97, 92, 92, 34, 98, 34]) ∧
+    evalIDL { files := [{ ns := 1, includes := [] }] } (fun _ _ => none) 0 0 (.base .str) (.lit [97, 92, 34, 98]) = some (.bytes [97, 34, 98]) ∧
+    evalGo { files := [{ ns := 1, includes := [] }] } (fun _ _ => none) (.strLit [34, 97, 92, 92, 34, 98, 34]) = none := ⟨rfl, rfl, rfl⟩
+
+/-- a.thrift: `include "b.thrift"`, `const b.S C = {"f": b.K}`; b.thrift: `include "c.thrift"`, `const i32 K = 7`,
+`struct S {1: i32 f}`; c.thrift: `const i32 K = 111`.  The member `b.K` is resolved in the scope of b.thrift,
+where include number 0 is c.thrift: Go holds 111, the IDL says 7. -/
+def scopeEnv : Env :=
+  { files := [
+      { ns := 1, includes := [(1, true)],
+        consts := [{ name := [67], ty := .named .strct (some 0) [83], val := .map [
+          (.lit [102], .ident [98, 46, 75] (some { isEnum := false, index := some 0, name := [75], sel := [98] }))] }] },
+      { ns := 2, includes := [(2, true)],
+        structs := [{ name := [83], fields := [{ name := [102], req := .default, ty := .base .i32, dflt := none }] }],
+        consts := [{ name := [75], ty := .base .i32, val := .int 7 }] },
+      { ns := 3, includes := [],
+        consts := [{ name := [75], ty := .base .i32, val := .int 111 }] }] }
+
+theorem const_value_fails_foreign_struct_literal :
+    idlEnvOf scopeEnv 3 0 [67] = some (.strct [.int 7]) ∧ goEnvOf scopeEnv 3 0 [67] = some (.strct [.int 111]) := ⟨rfl, rfl⟩
+
+/-- `enum E {A}` `struct S {1: optional E e}` `const S C = {"e": E.A}`: the IDL value is S{e: 0}; the emitted
+`&S{E: &E_A}` takes the address of a constant and has no value. -/
+def addrEnv : Env :=
+  { files := [
+      { ns := 1, includes := [],
+        enums := [{ name := [69], values := [([65], 0)] }],
+        structs := [{ name := [83], fields := [{ name := [101], req := .optional, ty := .named .enum none [69], dflt := none }] }],
+        consts := [{ name := [67], ty := .named .strct none [83], val := .map [
+          (.lit [101], .ident [69, 46, 65] (some { isEnum := true, index := none, name := [65], sel := [69] }))] }] }] }
+
+theorem const_value_fails_optional_enum_member :
+    idlEnvOf addrEnv 2 0 [67] = some (.strct [.int 0]) ∧ goEnvOf addrEnv 2 0 [67] = none := ⟨rfl, rfl⟩
+
+/-! ### string_literal_emission -/
+
+/-- **string_literal_emission.**  For a string-typed initializer that is a literal, the emitted Go text is
+`"` ++ the literal with every `"` preceded by `\` ++ `"`, and nothing else is touched. -/
+theorem string_literal_emission (E : Env) (root g : Nat) (t : ATy) (s : Bytes) (hc : t.cat = .str) :
+    resolveConst E root g t (.lit s) = .ok (.strLit ([34] ++ s.flatMap (fun c => if c = 34 then [92, 34] else [c]) ++ [34])) := by
+  rw [resolveConst.eq_def]
+  simp [hc, onStrBin, strBinCore, emitStr, escQ_eq_flatMap]
+
+/-- Go reads the emitted text as the literal's meaning whenever the scan of the literal never meets a quote
+right after a backslash that starts an escape sequence, nor a raw newline. -/
+theorem string_literal_value (s : Bytes) (h : litSafe .norm s = true) : goUnquote (emitStr s) = interp s :=
+  goUnquote_emit h
+
+/-- Consequence: a literal without backslash and newline is its own value in Go. -/
+theorem string_literal_plain (s : Bytes) (h : ∀ c ∈ s, c ≠ 92 ∧ c ≠ 10) : goUnquote (emitStr s) = some s :=
+  goUnquote_emit_plain h
+
+/-- The excluded shapes are defects (DESIGN §7): `'a\"b'` and a raw newline give Go text that does not compile. -/
+theorem string_literal_defects :
+    (goUnquote (emitStr [97, 92, 34, 98]) = none ∧ interp [97, 92, 34, 98] = some [97, 34, 98]) ∧
+    (goUnquote (emitStr [97, 10, 98]) = none ∧ interp [97, 10, 98] = some [97, 10, 98]) := by decide
+
+/-! ### NewX / InitDefault / getters / IsSet -/
+
+/-- **newX_defaults** (1): the field of `NewX()` at a position whose IDL field declares a default holds the
+value that default denotes; (2) every other field holds the Go zero value / nil. -/
+theorem newX_defaults (E : Env) (hacc : Accepted E) (hgood : EnvGood E) (fuel file : Nat) (st : AStruct) (sd : StructDef)
+    (i : Nat) (af : AField) (fd : FieldDef) (haf : st.fields[i]? = some af) (hfd : sd.fields[i]? = some fd) :
+    (∀ d e val, af.dflt = some d → resolveConst E file file af.ty d = .ok e → good E file af.ty d = true →
+        evalIDL E (idlEnvOf E fuel) file file af.ty d = some val →
+        (match newX (structDefOf E fuel file st sd) with | .strct vs => vs[i]? | _ => none) = some val) ∧
+    (af.dflt = none →
+        (match newX (structDefOf E fuel file st sd) with | .strct vs => vs[i]? | _ => none) = some (zeroOf fd.req fd.ty)) := by
+  have hz : ((sd.fields.zip st.fields)[i]?) = some (fd, af) := by
+    rw [List.getElem?_zip_eq_some]; exact ⟨hfd, haf⟩
+  constructor
+  · intro d e val hd he hg hI
+    have hv := const_value E hacc hgood fuel file file af.ty d e val he hg hI
+    simp only [newX, structDefOf, List.map_map, List.getElem?_map, hz, Option.map_some, Function.comp]
+    simp [fieldDefault, hd, he, hv]
+  · intro hd
+    simp only [newX, structDefOf, List.map_map, List.getElem?_map, hz, Option.map_some, Function.comp]
+    simp [fieldDefault, hd]
+
+/-- **newX_defaults** (3): `InitDefault()` on the zero struct gives exactly `NewX()`. -/
+theorem initDefault_zero_eq_newX (sd : StructDef) : initDefault sd (zeroStruct sd) = newX sd :=
+  Gen.Defaults.initDefault_zero sd
+
+/-- **getter_default.**  The getter of a field that supports IsSet and is not set returns the `_DEFAULT`
+variable: the declared default, or the zero value when none is declared; in particular an unset optional
+field (nil pointer) and an optional field still equal to its default. -/
+theorem getter_default (f : FieldDef) (v : GoVal) (hs : supportIsSet f = true) (hu : Std.isSet f v = false) :
+    getter f v = (match f.dflt with | some d => d | none => defaultVar f) := by
+  rw [getter_unset f v hs hu]
+  cases hd : f.dflt <;> simp [defaultVar, hd]
+
+theorem getter_set (f : FieldDef) (v : GoVal) (hu : Std.isSet f v = true) : getter f v = v := by
+  simp [getter, hu]
+
+/-- **isset_optional_default.**  An optional base-typed field with a declared default reports itself set
+exactly when it holds a value different (Go `!=`) from the default -- so a value equal to the default is not
+written (the wire consequence C02 relies on). -/
+theorem isset_optional_default (f : FieldDef) (d v : GoVal) (hd : f.dflt = some d) (hb : f.ty.isBase = true) :
+    Std.isSet f v = Std.neDefault f.ty v d := by
+  simp [Std.isSet, hd, hb]
+
+theorem isset_pointer (f : FieldDef) (v : GoVal) (h : f.dflt = none ∨ f.ty.isBase = false) :
+    Std.isSet f v = !goEq v .nil := by
+  rcases h with h | h
+  · simp [Std.isSet, h]
+  · cases hd : f.dflt <;> simp [Std.isSet, hd, h]
+
+/-! ### the small predicates copied from generator/golang/thrift.go, against the regenerated tables -/
+
+def catOfCode : Nat → Option Cat
+  | 1 => some .bool | 2 => some .i8 | 3 => some .i16 | 4 => some .i32 | 5 => some .i64 | 6 => some .dbl
+  | 7 => some .str | 8 => some .bin | 9 => some .map | 10 => some .list | 11 => some .set | 12 => some .enum
+  | 13 => some .strct | 14 => some .strct | 15 => some .strct
+  | _ => none
+
+def reqOfCode : Nat → Option Req
+  | 0 => some .default | 1 => some .required | 2 => some .optional
+  | _ => none
+
+def tyOfCat (c : Cat) : ATy := if c.isBase then .base c else .named c none []
+
+/-- resolved `Gen.Ty` of a category, for `supportIsSet` -/
+def gtyOfCat : Cat → Ty
+  | .bool => .bool | .i8 => .i8 | .i16 => .i16 | .i32 => .i32 | .i64 => .i64 | .dbl => .dbl | .str => .str
+  | .bin => .bin | .enum => .enum | .list => .list .bool | .set => .set .bool | .map => .map .bool .bool | .strct => .struct 0
+
+/-- `isConstantInGo`, `needRedirect`, `supportIsSet` agree with golang.IsConstantInGo / NeedRedirect /
+SupportIsSet of the repository on every (category, requiredness, has-default) combination. -/
+theorem predicate_tables_sound :
+    (Generated.C06.isConstTable.all fun (c, b) =>
+      match catOfCode c with | some cat => isConstantInGo (tyOfCat cat) == b | none => false) = true ∧
+    (Generated.C06.needRedirectTable.all fun (c, r, d, b) =>
+      match catOfCode c, reqOfCode r with
+      | some cat, some req => needRedirect { name := [], req := req, ty := tyOfCat cat, dflt := if d then some (.int 0) else none } == b
+      | _, _ => false) = true ∧
+    (Generated.C06.supportIsSetTable.all fun (c, r, b) =>
+      match catOfCode c, reqOfCode r with
+      | some cat, some req => supportIsSet { id := 1, req := req, ty := gtyOfCat cat, dflt := none } == b
+      | _, _ => false) = true := by decide
+
+end Props.C06
